@@ -337,6 +337,13 @@ async fn handle(cmd: &Value) -> Result<Value, String> {
 			let mut out = vec![];
 			for w in cmd.get("writes").and_then(|x| x.as_array()).ok_or("writes")? {
 				let kind = s(w, "kind")?;
+				if kind == "rmdir-crt" || kind == "rmdir-account" {
+					// the directory vanishes while the daemon runs (tmpfs wiped, operator error)
+					let d = if kind == "rmdir-crt" { &fm.crt_directory } else { &fm.account_directory };
+					let r = std::fs::remove_dir_all(d);
+					out.push(json!({"kind": kind, "ok": r.is_ok(), "err": r.err().map(|e| e.to_string()), "path": d, "stat": {"exists": false}}));
+					continue;
+				}
 				let (res, path) = match kind {
 					"crt" => (
 						storage::write_certificate(&fm, &unhex(s(w, "data")?)?).await,
